@@ -261,6 +261,8 @@ func TestProperty(t *testing.T) {
 		{Name: "list_refs", Quick: 20000, Thorough: 300000, Gen: genCase(gen.RefsDoc()), Prop: propList, Rule: "D as for quote_refs: " + ruleL},
 		{Name: "quote_long_labels", Quick: 2500, Thorough: 40000, Gen: genCase(gen.LongLabelDoc()), Prop: propQuote, Rule: "D = a definition and a use of a label of 985-1003 characters written on 1-5 lines (the limit is 999 characters between the brackets, whatever container prefixes the lines carry): " + ruleQ},
 		{Name: "list_long_labels", Quick: 2500, Thorough: 40000, Gen: genCase(gen.LongLabelDoc()), Prop: propList, Rule: "D as for quote_long_labels: " + ruleL},
+		{Name: "quote_deep", Quick: 1500, Thorough: 60000, Gen: genCase(gen.Deep()), Prop: propQuote, Rule: "D = documents with up to 48 nested containers, 40 nested inlines or 150 siblings (gen.Deep), so that wrapping adds one level at every depth: " + ruleQ},
+		{Name: "list_deep", Quick: 1500, Thorough: 60000, Gen: genCase(genListDoc(gen.Deep())), Prop: propList, Rule: "D as for quote_deep: " + ruleL},
 		{Name: "list_lines", Quick: 30000, Thorough: 400000, Gen: genCase(genListDoc(gen.Lines())), Prop: propList, Rule: "G2 only: " + ruleL},
 	}})
 }
